@@ -202,7 +202,7 @@ type fact struct {
 	want bool   // bool: the value; nil: true = value is nil
 }
 
-func factBool(isV func(ssa.Value) bool, want bool) fact { return fact{isV, "bool", want} }
+func factBool(isV func(ssa.Value) bool, want bool) fact   { return fact{isV, "bool", want} }
 func factNil(isV func(ssa.Value) bool, wantNil bool) fact { return fact{isV, "nil", wantNil} }
 
 // directEdge: the successor of ifi on which the fact holds by ifi's own condition.
